@@ -9,7 +9,7 @@ let handle (line : string) : string =
      | ["kh"; red; h; t; npos; nneg] ->
         let l = parse_link ls in
         let red = (red = "1") in
-        let (np, nn) = (int_of_string npos, int_of_string nneg) in
+        (match model_signs l (int_of_string npos) (int_of_string nneg) with Error e -> e | Ok (np, nn) ->
         let hz = z_of_string h and tz = z_of_string t in
         let rede = if red then first_edge l else None in
         let c = build_cube l rede hz tz in
@@ -26,7 +26,7 @@ let handle (line : string) : string =
                     let qs' = np - 2 * nn + (if red then 1 else 0) in
                     Stdlib.List.map (fun w -> Printf.sprintf "B%s[%s]" w (bitable_of qs hs qs' w)) ["Z"; "Q"; "F2"; "F3"])
               else [] in
-            String.concat " " (base @ bi))
+            String.concat " " (base @ bi)))
      | _ -> failwith "bad case head")
 
 let () = run_lines handle
